@@ -1,6 +1,6 @@
 CONSTANTS
   MaxReq = 3
-  Kinds <- AllKinds
+  Kinds <- EnvAll
   GapKinds <- Gaps01
   UniformGaps = FALSE
   PipeCap = 2
